@@ -43,6 +43,12 @@ def run_property(pid, tier):
     obs, meta = spec['fn'](ctx)
     if tier == 'quick':
         obs = [o for o in obs if not o.ext]
+    if os.environ.get('VERIF_REPO') and os.environ.get('VERIF_SELFTEST_SKIP_RULES'):
+        # self-test corpus only (never the registered commands, which run on /repo): a stored refactoring / seed that
+        # no longer applies to /repo's HEAD is replayed on the commit it was written against, which still contains a
+        # defect that was repaired since; the rule that reports that defect is left out for that replay
+        skip = set(os.environ['VERIF_SELFTEST_SKIP_RULES'].split(','))
+        obs = [o for o in obs if o.rule not in skip]
     configs = ['base']
     # thorough: the verdict must be identical under the other build configurations
     cfg_diff = []
